@@ -89,9 +89,12 @@ def main(argv=None):
     results = []
     jobs = []
     os.makedirs(P.BUILD, exist_ok=True)
-    with ThreadPoolExecutor(max_workers=max(1, min(a.jobs, len(files)))) as ex:
+    with ThreadPoolExecutor(max_workers=max(1, a.jobs)) as ex:
         for f in files:
-            jobs.append(ex.submit(_work, (f, tier, seed, a.only, a.v)))
+            # one process per obligation (the slice is built once, under a lock, and shared)
+            for o in runner.parse_header(f):
+                if o.id in wanted and (tier == "thorough" or o.tier == "Q"):
+                    jobs.append(ex.submit(_work, (f, tier, seed, [o.id], a.v)))
         for j in as_completed(jobs):
             results.extend(j.result())
     results = [r for r in results if r.get("id") in wanted or r.get("prop") == "?"]
